@@ -1,7 +1,6 @@
-// TRUSTED PIPELINE CONTRACTS -- two functions of /repo/src/validation.rs that Verus cannot take:
-//   resolve_types            (hands a closure to the mutable walker; its closure IS proved, unit v_resolve; the composition is assumed)
-//   set_up_oneway_interface  (iter_mut().filter_map().for_each())
-// Each contract is assumed here and is the assertion set of a bounded Kani harness on the real function.
+// TRUSTED PIPELINE CONTRACT -- one function of /repo/src/validation.rs that Verus cannot take:
+//   resolve_types  (hands a closure to the mutable walker; its closure IS proved, unit v_resolve; the composition is assumed)
+// The contract is assumed here and checked only by the bounded oracles (replay/oracle.rs, replay/c15_traversal.rs).
 
 // one node: same name, ranges and arity; kind untouched unless it was Unresolved
 spec fn node_resolved(o: ast::Type, n: ast::Type) -> bool
@@ -30,11 +29,4 @@ fn resolve_types(
         prefix_kept(old(diagnostics)@, final(diagnostics)@),
         // the `resolved` set: exactly the keys of the final type nodes (C05/C06 coupling)
         forall |k: int| 0 <= k < types_of(*final(ast)).len() ==> (match resolved_key(#[trigger] types_of(*final(ast))[k].kind) { Some(key) => r@.contains(string_of(key)), None => true }),
-{ unimplemented!() }
-
-#[verifier::external_body]
-fn set_up_oneway_interface(interface: &mut ast::Interface, diagnostics: &mut Vec<Diagnostic>)
-    ensures
-        oneway_propagated(*old(interface), *final(interface)),
-        appended_ex(old(diagnostics)@, final(diagnostics)@, oneway_expect(*old(interface), old(interface).elements@.len() as int)),
 { unimplemented!() }
